@@ -219,8 +219,9 @@ func (e *TCPEnd) DeliverCuts(data []byte, cuts []int) {
 func (e *TCPEnd) arriveAfter(lat time.Duration, fn func(p *TCPEnd)) {
 	k := e.n.K
 	at := k.Now().Add(lat)
-	if at.Before(e.lastArr) {
-		at = e.lastArr
+	if !at.After(e.lastArr) {
+		// a byte stream: segments of one direction arrive strictly in order
+		at = e.lastArr.Add(time.Nanosecond)
 	}
 	e.lastArr = at
 	p := e.Peer
